@@ -1,7 +1,9 @@
 package streams
 
 import (
+	"strconv"
 	"strings"
+	"unicode"
 
 	"github.com/remieven/ysgo/markup"
 
@@ -14,6 +16,8 @@ import (
 //	(case markup <id> chunks  (chunks ...) <line>)          the chunk list is only used by the Lean side (spec)
 //	(case markup <id> history (hist <line>*) <line>)        earlier lines parsed on the same LineParser value
 //	(case markup <id> fuzz    <line>)
+//	(case markup <id> utf8    <line>)                        validates the model's UTF-8 decoder: the runes of the bytes
+//	(case markup <id> unicode <lo> <hi>)                     validates the model's Unicode tables on the code points [lo, hi)
 //
 // <line> is (b byte ...) (arbitrary bytes) or (s codepoint ...).
 //
@@ -87,6 +91,45 @@ func Markup(c *sexp.S, out *Out) {
 		} else {
 			out.Put("FRESH diff %s", fresh)
 		}
+	case "utf8":
+		// the runes Go sees in a byte string
+		var b strings.Builder
+		for _, r := range markupLine(c.List[4]) {
+			b.WriteString(strconv.FormatInt(int64(r), 16))
+			b.WriteByte('.')
+		}
+		out.Put("%s", b.String())
+	case "unicode":
+		// classification of every code point in [lo, hi): bit 0 IsSpace, bit 1 IsLetter, bit 2 IsDigit; then the code
+		// points that ToLower changes
+		if len(c.List) < 6 {
+			out.Put("BADCASE")
+			return
+		}
+		lo, hi := c.List[4].Int(), c.List[5].Int()
+		var cls, low strings.Builder
+		for cp := lo; cp < hi; cp++ {
+			r := rune(cp)
+			if r >= 0xD800 && r <= 0xDFFF {
+				cls.WriteByte('-')
+				continue
+			}
+			k := 0
+			if unicode.IsSpace(r) {
+				k |= 1
+			}
+			if unicode.IsLetter(r) {
+				k |= 2
+			}
+			if unicode.IsDigit(r) {
+				k |= 4
+			}
+			cls.WriteByte(byte('0' + k))
+			if l := unicode.ToLower(r); l != r {
+				low.WriteString(strconv.FormatInt(int64(r), 16) + ">" + strconv.FormatInt(int64(l), 16) + ".")
+			}
+		}
+		out.Put("%s|%s", cls.String(), low.String())
 	default:
 		out.Put("BADCASE")
 	}
